@@ -678,7 +678,14 @@ def install_monitoring(line_codes, opcode_codes=()):
   ops = set(opcode_codes)
   for c in list(line_codes) + list(opcode_codes):
     if c not in _code_index:
-      _code_index[c] = len(_code_index) + 1
+      # an identifier that does not depend on what else this process has compiled or in which order
+      fn = c.co_filename
+      if fn.startswith('<'):
+        import linecache
+        fn = ''.join(linecache.getlines(fn))
+      else:
+        fn = fn.rsplit('/', 1)[-1]
+      _code_index[c] = _stable((fn, c.co_qualname, c.co_firstlineno)) & 0xFFFFFFFFFFFF
     ev = mon.events.LINE
     if c in ops:
       ev |= mon.events.INSTRUCTION
